@@ -1,2 +1,529 @@
+(* proof/HeadStatsProofs.v — the counters of model/HeadStats.v equal the recount over the model
+   head after every history whose oracles are well formed; counterexamples when they are not. *)
 From Coq Require Import List ZArith Bool Lia.
 From Verif Require Import model.HeadStats.
+Import ListNotations.
+Open Scope Z_scope.
+
+Local Arguments Z.eqb : simpl never.
+Local Arguments Z.leb : simpl never.
+Local Arguments Z.ltb : simpl never.
+Local Arguments Z.add : simpl never.
+Local Arguments Z.sub : simpl never.
+Local Arguments Z.opp : simpl never.
+Local Arguments Z.of_nat : simpl never.
+
+(* ------------------------------------------------------------------ the invariant *)
+Definition f_stale (s : mser) : Z := b2z (lv_stale (s_last s)).
+Definition f_hist (s : mser) : Z := b2z (lv_hist (s_last s)).
+Definition f_nb (s : mser) : Z := lv_nb (s_last s).
+
+Definition ok (s : mser) : Prop := ooo_ok s = true.
+
+Record Inv (st : state) : Prop := mkInv {
+  i_series : c_series (st_c st) = zlen (st_series st);
+  i_stale : c_stale (st_c st) = sumf f_stale (st_series st);
+  i_hist : c_hist (st_c st) = sumf f_hist (st_series st);
+  i_nb : c_buckets (st_c st) = sumf f_nb (st_series st);
+  i_chunks : c_chunks (st_c st) = sumf ser_chunks (st_series st);
+  i_active : c_active (st_c st) = zlen (st_open st);
+  i_ok : Forall ok (st_series st)
+}.
+
+Lemma inv_recount : forall st, Inv st -> st_c st = recount st.
+Proof.
+  intros st [H1 H2 H3 H4 H5 H6 _]. unfold recount. destruct (st_c st); simpl in *.
+  unfold f_stale, f_hist, f_nb in *. congruence.
+Qed.
+
+Lemma inv0 : Inv state0.
+Proof. constructor; simpl; auto. Qed.
+
+(* ------------------------------------------------------------------ list lemmas *)
+Lemma zlen_app : forall A (a b : list A), zlen (a ++ b) = zlen a + zlen b.
+Proof. intros. unfold zlen. rewrite app_length. lia. Qed.
+Lemma zlen_cons : forall A (x : A) l, zlen (x :: l) = 1 + zlen l.
+Proof. intros. unfold zlen. simpl length. lia. Qed.
+Lemma zlen_nil : forall A, zlen (@nil A) = 0.
+Proof. reflexivity. Qed.
+Lemma zlen_nonneg : forall A (l : list A), 0 <= zlen l.
+Proof. intros. unfold zlen. lia. Qed.
+Lemma zlen_rev : forall A (l : list A), zlen (rev l) = zlen l.
+Proof. intros. unfold zlen. rewrite rev_length. reflexivity. Qed.
+
+Lemma sumf_app : forall f a b, sumf f (a ++ b) = sumf f a + sumf f b.
+Proof. induction a; simpl; intros; [lia | rewrite IHa; lia]. Qed.
+
+Lemma sumf_ext : forall f g l, (forall s, f (g s) = f s) -> sumf f (map g l) = sumf f l.
+Proof. induction l; simpl; intros; [reflexivity | rewrite H, IHl by assumption; reflexivity]. Qed.
+
+Lemma find_upd_sum : forall f r g l s,
+  find_ser r l = Some s -> sumf f (upd_ser r g l) = sumf f l - f s + f (g s).
+Proof.
+  induction l as [|a l IH]; simpl; intros s H; [discriminate|].
+  destruct (s_ref a =? r).
+  - inversion H; subst. simpl. lia.
+  - simpl. rewrite (IH _ H). lia.
+Qed.
+
+Lemma find_none_upd : forall r g l, find_ser r l = None -> upd_ser r g l = l.
+Proof.
+  induction l as [|a l IH]; simpl; intros H; [reflexivity|].
+  destruct (s_ref a =? r); [discriminate | rewrite IH by assumption; reflexivity].
+Qed.
+
+Lemma upd_len : forall r g l, zlen (upd_ser r g l) = zlen l.
+Proof.
+  induction l as [|a l IH]; simpl; [reflexivity|].
+  destruct (s_ref a =? r); rewrite !zlen_cons; [reflexivity | rewrite IH; reflexivity].
+Qed.
+
+Lemma upd_sum_same : forall f r g l, (forall s, f (g s) = f s) -> sumf f (upd_ser r g l) = sumf f l.
+Proof.
+  induction l as [|a l IH]; simpl; intros H; [reflexivity|].
+  destruct (s_ref a =? r); simpl; [rewrite H; reflexivity | rewrite IH by assumption; reflexivity].
+Qed.
+
+Lemma upd_forall : forall (P : mser -> Prop) r g l, (forall s, P s -> P (g s)) -> Forall P l -> Forall P (upd_ser r g l).
+Proof.
+  induction l as [|a l IH]; simpl; intros Hg H; [constructor|].
+  inversion H; subst. destruct (s_ref a =? r); constructor; auto.
+Qed.
+
+Lemma find_in : forall r l s, find_ser r l = Some s -> In s l /\ s_ref s = r.
+Proof.
+  induction l as [|a l IH]; simpl; intros s H; [discriminate|].
+  destruct (s_ref a =? r) eqn:E.
+  - inversion H; subst. split; [left; reflexivity | apply Z.eqb_eq; assumption].
+  - destruct (IH _ H). split; [right; assumption | assumption].
+Qed.
+
+Lemma find_upd_some : forall r r' g l, (forall s, s_ref (g s) = s_ref s) ->
+  is_some (find_ser r' (upd_ser r g l)) = is_some (find_ser r' l).
+Proof.
+  induction l as [|a l IH]; simpl; intros Hg; [reflexivity|].
+  destruct (s_ref a =? r) eqn:E; simpl.
+  - rewrite Hg. destruct (s_ref a =? r'); reflexivity.
+  - destruct (s_ref a =? r'); [reflexivity | apply IH; assumption].
+Qed.
+
+(* clear_pend / set_pend do not touch anything that is counted *)
+Lemma clear_pend_len : forall rs l, zlen (clear_pend rs l) = zlen l.
+Proof. induction rs; simpl; intros; [reflexivity | rewrite IHrs, upd_len; reflexivity]. Qed.
+Lemma clear_pend_sum : forall f, (forall p s, f (set_pend p s) = f s) ->
+  forall rs l, sumf f (clear_pend rs l) = sumf f l.
+Proof. intros f H. induction rs; simpl; intros; [reflexivity | rewrite IHrs, upd_sum_same by (intros; apply H); reflexivity]. Qed.
+Lemma clear_pend_ok : forall rs l, Forall ok l -> Forall ok (clear_pend rs l).
+Proof. induction rs; simpl; intros; [assumption | apply IHrs, upd_forall; [intros s Hs; exact Hs | assumption]]. Qed.
+
+Lemma pend_stale : forall p s, f_stale (set_pend p s) = f_stale s. Proof. reflexivity. Qed.
+Lemma pend_hist : forall p s, f_hist (set_pend p s) = f_hist s. Proof. reflexivity. Qed.
+Lemma pend_nb : forall p s, f_nb (set_pend p s) = f_nb s. Proof. reflexivity. Qed.
+Lemma pend_chunks : forall p s, ser_chunks (set_pend p s) = ser_chunks s. Proof. reflexivity. Qed.
+
+(* ------------------------------------------------------------------ commit *)
+Lemma ok_iff : forall s, ok s <-> 0 <= s_omm s /\ (s_ostruct s = true \/ (s_omm s = 0 /\ s_ohead s = None)).
+Proof.
+  intros s. unfold ok, ooo_ok. rewrite andb_true_iff, orb_true_iff, andb_true_iff, Z.leb_le, Z.eqb_eq.
+  destruct (s_ohead s); simpl; intuition congruence.
+Qed.
+
+Lemma commit_ser_delta : forall cap c0 s x s' c l,
+  wf_landed l x = true -> ok s ->
+  commit_ser cap c0 s x = (s', c) ->
+  c_series c = c_series c0 /\ c_active c = c_active c0 /\
+  c_stale c = c_stale c0 - f_stale s + f_stale s' /\
+  c_hist c = c_hist c0 - f_hist s + f_hist s' /\
+  c_buckets c = c_buckets c0 - f_nb s + f_nb s' /\
+  c_chunks c = c_chunks c0 - ser_chunks s + ser_chunks s' /\
+  ok s' /\ s_ref s' = s_ref s.
+Proof.
+  intros cap c0 s x s' c l Hwf Hok H.
+  unfold wf_landed in Hwf. apply andb_true_iff in Hwf. destruct Hwf as [_ Hwf].
+  apply ok_iff in Hok. rewrite ok_iff.
+  destruct s as [r mm hc omm oh os last pend snap]. simpl in Hok.
+  destruct x as [r0 t hist stale nbi nba cut | r0 k dup]; simpl in H.
+  - (* in-order *)
+    assert (Hnb : hist = true -> nbi = nba) by (intros ->; apply Z.eqb_eq; assumption).
+    inversion H; subst s' c; clear H.
+    unfold f_stale, f_hist, f_nb, ser_chunks, upd_stale, upd_hist, push_or_bump; simpl.
+    destruct hist; [specialize (Hnb eq_refl); subst nba|];
+      destruct last as [ws | ws wn]; destruct ws; destruct stale; destruct cut; destruct hc as [|h0 hc'];
+      simpl;
+      repeat match goal with |- context [?a =? ?b] => destruct (Z.eqb_spec a b) end;
+      simpl; rewrite ?zlen_cons, ?zlen_nil; repeat split; auto; try lia; try tauto.
+  - (* out of order *)
+    apply Z.eqb_eq in Hwf. subst k.
+    unfold f_stale, f_hist, f_nb, ser_chunks; simpl.
+    destruct oh as [n|]; simpl in H; [destruct (n =? cap)|]; inversion H; subst s' c; clear H; simpl;
+      repeat split; auto; try lia; try tauto.
+Qed.
+
+Lemma forall_in : forall (P : mser -> Prop) l s, Forall P l -> In s l -> P s.
+Proof. intros P l s H. rewrite Forall_forall in H. auto. Qed.
+
+Lemma commit1_inv : forall cap st x,
+  wf_landed (st_series st) x = true -> Inv st -> Inv (commit1 cap st x) /\ st_open (commit1 cap st x) = st_open st.
+Proof.
+  intros cap st x Hwf HI.
+  assert (Hf : is_some (find_ser (landed_ref x) (st_series st)) = true).
+  { unfold wf_landed in Hwf. apply andb_true_iff in Hwf. tauto. }
+  unfold commit1. destruct (find_ser (landed_ref x) (st_series st)) as [s|] eqn:E; [|discriminate].
+  destruct (commit_ser cap (st_c st) s x) as [s' c] eqn:EC.
+  destruct (find_in _ _ _ E) as [Hin Href].
+  destruct HI as [H1 H2 H3 H4 H5 H6 H7].
+  pose proof (forall_in _ _ _ H7 Hin) as Hoks.
+  destruct (commit_ser_delta _ _ _ _ _ _ _ Hwf Hoks EC) as (D1 & D2 & D3 & D4 & D5 & D6 & D7 & D8).
+  split; [|reflexivity].
+  constructor; simpl.
+  - rewrite upd_len. congruence.
+  - rewrite (find_upd_sum f_stale _ _ _ _ E). lia.
+  - rewrite (find_upd_sum f_hist _ _ _ _ E). lia.
+  - rewrite (find_upd_sum f_nb _ _ _ _ E). lia.
+  - rewrite (find_upd_sum ser_chunks _ _ _ _ E). lia.
+  - congruence.
+  - clear - H7 D7 E. revert E. induction (st_series st) as [|a l IH]; simpl; intros E; [constructor|].
+    inversion H7; subst. destruct (s_ref a =? landed_ref x).
+    + constructor; assumption.
+    + constructor; auto.
+Qed.
+
+Lemma commit1_find : forall cap st x r,
+  is_some (find_ser r (st_series (commit1 cap st x))) = is_some (find_ser r (st_series st)).
+Proof.
+  intros. unfold commit1.
+  destruct (find_ser (landed_ref x) (st_series st)) as [s|] eqn:E.
+  - destruct (commit_ser cap (st_c st) s x) as [s' c] eqn:EC. simpl.
+    destruct (find_in _ _ _ E) as [_ Href].
+    assert (Hr : s_ref s' = s_ref s).
+    { destruct x; simpl in EC.
+      - inversion EC; reflexivity.
+      - destruct (match s_ohead s with Some n => n =? cap | None => true end); inversion EC; reflexivity. }
+    clear EC. revert E. induction (st_series st) as [|a l IH]; simpl; intros E; [reflexivity|].
+    destruct (s_ref a =? landed_ref x) eqn:E1; simpl.
+    + inversion E; subst a. rewrite Hr. destruct (s_ref s =? r); reflexivity.
+    + destruct (s_ref a =? r); [reflexivity | apply IH; assumption].
+  - destruct (find_ser (landed_ref x) (st_orph st)) as [s|]; [|reflexivity].
+    destruct (commit_ser cap (st_c st) s x). reflexivity.
+Qed.
+
+Lemma wf_landed_commit1 : forall cap st y x,
+  wf_landed (st_series (commit1 cap st y)) x = wf_landed (st_series st) x.
+Proof. intros. unfold wf_landed. rewrite commit1_find. reflexivity. Qed.
+
+Lemma commit_fold_inv : forall cap l st,
+  forallb (wf_landed (st_series st)) l = true -> Inv st ->
+  Inv (fold_left (commit1 cap) l st) /\ st_open (fold_left (commit1 cap) l st) = st_open st.
+Proof.
+  induction l as [|x l IH]; simpl; intros st Hwf HI; [split; [assumption | reflexivity]|].
+  apply andb_true_iff in Hwf. destruct Hwf as [Hx Hl].
+  destruct (commit1_inv cap st x Hx HI) as [HI' Ho'].
+  assert (Hl' : forallb (wf_landed (st_series (commit1 cap st x))) l = true).
+  { rewrite forallb_forall in *. intros y Hy. rewrite wf_landed_commit1. auto. }
+  destruct (IH _ Hl' HI') as [HI'' Ho'']. split; [assumption | congruence].
+Qed.
+
+(* ------------------------------------------------------------------ open appenders *)
+Lemma remove1_len : forall a l, mem a l = true -> zlen (remove1 a l) = zlen l - 1.
+Proof.
+  unfold mem. induction l as [|x l IH]; simpl; intros H; [discriminate|].
+  destruct (Z.eqb_spec x a) as [->|Hne].
+  - rewrite zlen_cons. lia.
+  - destruct (Z.eqb_spec a x) as [->|_]; [congruence|]. simpl in H.
+    rewrite !zlen_cons, IH by assumption. lia.
+Qed.
+
+(* ------------------------------------------------------------------ m-mapping and flushing *)
+Lemma mmap1_chunks : forall s, ser_chunks (mmap1 s) = ser_chunks s.
+Proof.
+  intros s. unfold mmap1. destruct (s_hc s) as [|n [|o r]] eqn:E; try reflexivity.
+  unfold ser_chunks; simpl. rewrite E, !zlen_app, zlen_rev, !zlen_cons, zlen_nil. lia.
+Qed.
+Lemma mmap1_other : forall s, s_last (mmap1 s) = s_last s /\ ooo_ok (mmap1 s) = ooo_ok s.
+Proof. intros s. unfold mmap1. destruct (s_hc s) as [|n [|o r]]; split; reflexivity. Qed.
+
+Lemma flush1_props : forall s, ok s ->
+  ser_chunks (flush1 1 s) = ser_chunks s /\ s_last (flush1 1 s) = s_last s /\ ok (flush1 1 s).
+Proof.
+  intros s H. unfold flush1. destruct (s_ohead s) eqn:E; [|auto].
+  destruct (s_ostruct s) eqn:E2; [|auto].
+  apply ok_iff in H. rewrite ok_iff. unfold ser_chunks; simpl. rewrite E. simpl. repeat split; try lia; auto.
+Qed.
+
+Lemma flush_list_inv : forall fl l,
+  forallb (fun p : Z * Z => snd p =? 1) fl = true -> Forall ok l ->
+  zlen (flush_list fl l) = zlen l /\ sumf f_stale (flush_list fl l) = sumf f_stale l /\
+  sumf f_hist (flush_list fl l) = sumf f_hist l /\ sumf f_nb (flush_list fl l) = sumf f_nb l /\
+  sumf ser_chunks (flush_list fl l) = sumf ser_chunks l /\ Forall ok (flush_list fl l).
+Proof.
+  induction fl as [|[r k] fl IH]; simpl; intros l Hwf Hok; [repeat split; auto|].
+  apply andb_true_iff in Hwf. destruct Hwf as [Hk Hfl]. simpl in Hk. apply Z.eqb_eq in Hk. subst k.
+  assert (Hok' : Forall ok (upd_ser r (flush1 1) l)).
+  { apply upd_forall; [intros s Hs; apply flush1_props; assumption | assumption]. }
+  destruct (IH _ Hfl Hok') as (A & B & C & D & E & F).
+  assert (G : forall f, (forall s, ok s -> f (flush1 1 s) = f s) -> sumf f (upd_ser r (flush1 1) l) = sumf f l).
+  { intros f Hf. clear - Hok Hf. induction l as [|a l IHl]; simpl; [reflexivity|].
+    inversion Hok; subst. destruct (s_ref a =? r); simpl; [rewrite Hf by assumption; reflexivity | rewrite IHl by assumption; reflexivity]. }
+  rewrite A, B, C, D, E, upd_len.
+  repeat split; auto; apply G; intros s Hs; destruct (flush1_props s Hs) as (P1 & P2 & P3);
+    unfold f_stale, f_hist, f_nb; try rewrite P2; auto.
+Qed.
+
+(* ------------------------------------------------------------------ truncateChunksBefore / gc *)
+Lemma first_below_bound : forall mint hc i j, first_below mint hc i = Some j -> (i <= j < i + length hc)%nat.
+Proof.
+  induction hc as [|c r IH]; simpl; intros i j H; [discriminate|].
+  destruct (c <? mint); [inversion H; lia|]. apply IH in H. lia.
+Qed.
+
+Lemma count_prefix_bound : forall mint mm, (count_prefix_below mint mm <= length mm)%nat.
+Proof. induction mm as [|c r IH]; simpl; [lia | destruct (c <? mint); simpl; lia]. Qed.
+
+Lemma truncate_props : forall mint ooorm s s' r, ok s -> truncate_chunks mint ooorm s = (s', r) ->
+  ser_chunks s' = ser_chunks s - r /\ s_last s' = s_last s /\ ok s'.
+Proof.
+  intros mint ooorm s s' r Hok H. unfold truncate_chunks in H.
+  apply ok_iff in Hok. rewrite ok_iff.
+  destruct s as [ref mm hc omm oh os last pend snap]; simpl in *.
+  destruct (first_below mint hc 0) as [i|] eqn:E.
+  - apply first_below_bound in E. simpl in E.
+    inversion H; subst s' r; clear H. unfold ser_chunks; simpl.
+    assert (L : zlen (firstn i hc) = Z.of_nat i) by (unfold zlen; rewrite firstn_length; lia).
+    rewrite L, zlen_nil. unfold zlen.
+    destruct os; destruct (0 <? omm) eqn:E0; simpl;
+      repeat match goal with |- context [?a =? ?b] => destruct (Z.eqb_spec a b) end;
+      destruct oh; simpl; try apply Z.ltb_lt in E0; try apply Z.ltb_ge in E0;
+      repeat split; try lia; try tauto; auto;
+      try (destruct Hok as [? [?|[? ?]]]; try discriminate; try lia; try (left; reflexivity); try (right; split; [lia | reflexivity]); auto).
+  - pose proof (count_prefix_bound mint mm) as B.
+    inversion H; subst s' r; clear H. unfold ser_chunks; simpl.
+    assert (L : zlen (skipn (count_prefix_below mint mm) mm) = zlen mm - Z.of_nat (count_prefix_below mint mm))
+      by (unfold zlen; rewrite skipn_length; lia).
+    rewrite L.
+    destruct os; destruct (0 <? omm) eqn:E0; simpl;
+      repeat match goal with |- context [?a =? ?b] => destruct (Z.eqb_spec a b) end;
+      destruct oh; simpl; try apply Z.ltb_lt in E0; try apply Z.ltb_ge in E0;
+      repeat split; try lia; try tauto; auto;
+      try (destruct Hok as [? [?|[? ?]]]; try discriminate; try lia; try (left; reflexivity); try (right; split; [lia | reflexivity]); auto).
+Qed.
+
+Lemma keeps_false_chunks : forall s, ok s -> keeps s = false -> ser_chunks s = 0.
+Proof.
+  intros s Hok H. apply ok_iff in Hok. unfold keeps in H.
+  destruct s as [ref mm hc omm oh os last pend snap]; simpl in *. unfold ser_chunks; simpl.
+  destruct mm; [|discriminate]. destruct hc; [|discriminate]. simpl in H.
+  destruct pend; [discriminate|]. simpl in H.
+  destruct os; simpl in H.
+  - apply orb_false_iff in H. destruct H as [H1 H2]. apply Z.ltb_ge in H1. destruct oh; [discriminate|]. simpl. rewrite zlen_nil. lia.
+  - destruct Hok as [_ [Hc | [Ho Hh]]]; [discriminate|]. subst. simpl. rewrite zlen_nil. lia.
+Qed.
+
+Lemma gc_list_inv : forall mint ooorm l l2 d rm del st hi bu,
+  Forall ok l -> gc_list mint ooorm l = (l2, d, (rm, del, st, hi, bu)) ->
+  zlen l2 = zlen l - del /\ sumf f_stale l2 = sumf f_stale l - st /\ sumf f_hist l2 = sumf f_hist l - hi /\
+  sumf f_nb l2 = sumf f_nb l - bu /\ sumf ser_chunks l2 = sumf ser_chunks l - rm /\ Forall ok l2.
+Proof.
+  induction l as [|s t IH]; simpl; intros l2 d rm del st hi bu Hok H.
+  - inversion H; subst. repeat split; auto.
+  - inversion Hok as [|? ? Hs Ht]; subst.
+    destruct (gc_list mint ooorm t) as [[t' d'] [[[[rm' del'] st'] hi'] bu']] eqn:E.
+    destruct (IH _ _ _ _ _ _ _ Ht eq_refl) as (A & B & C & D & F & G).
+    destruct (truncate_chunks mint (lookupz (s_ref s) ooorm) s) as [s' r] eqn:ET.
+    destruct (truncate_props _ _ _ _ _ Hs ET) as (P1 & P2 & P3).
+    destruct (keeps s') eqn:EK; inversion H; subst; clear H.
+    + simpl. rewrite !zlen_cons, A, B, C, D, F. unfold f_stale, f_hist, f_nb in *. rewrite P1, P2.
+      repeat split; try lia. constructor; assumption.
+    + pose proof (keeps_false_chunks _ P3 EK) as Z0.
+      rewrite !zlen_cons, A, B, C, D, F. unfold f_stale, f_hist, f_nb in *. rewrite <- P2.
+      repeat split; try lia. assumption.
+Qed.
+
+(* ------------------------------------------------------------------ gcSeries *)
+Lemma evict_list_inv : forall so refs maxt l l2 d rm del st hi bu,
+  Forall ok l -> evict_list so refs maxt l = (l2, d, (rm, del, st, hi, bu)) ->
+  zlen l2 = zlen l - del /\ sumf f_stale l2 = sumf f_stale l - st /\ sumf f_hist l2 = sumf f_hist l - hi /\
+  sumf f_nb l2 = sumf f_nb l - bu /\ sumf ser_chunks l2 = sumf ser_chunks l - rm /\ Forall ok l2.
+Proof.
+  induction l as [|s t IH]; simpl; intros l2 d rm del st hi bu Hok H.
+  - inversion H; subst. repeat split; auto.
+  - inversion Hok as [|? ? Hs Ht]; subst.
+    destruct (evict_list so refs maxt t) as [[t' d'] [[[[rm' del'] st'] hi'] bu']] eqn:E.
+    destruct (IH _ _ _ _ _ _ _ Ht eq_refl) as (A & B & C & D & F & G).
+    destruct (evictable so refs maxt s) eqn:EV; inversion H; subst; clear H.
+    + assert (Z0 : ser_chunks s = zlen (s_hc s) + zlen (s_mm s)).
+      { unfold evictable in EV. apply andb_true_iff in EV. destruct EV as [EV _].
+        apply andb_true_iff in EV. destruct EV as [_ EV]. apply negb_true_iff in EV.
+        apply ok_iff in Hs. destruct Hs as [_ [Hc | [Ho Hh]]]; [congruence|].
+        unfold ser_chunks. rewrite Ho, Hh. simpl. lia. }
+      rewrite !zlen_cons, A, B, C, D, F. unfold f_stale, f_hist, f_nb in *.
+      repeat split; try lia. assumption.
+    + simpl. rewrite !zlen_cons, A, B, C, D, F. repeat split; try lia. constructor; assumption.
+Qed.
+
+(* ------------------------------------------------------------------ restart *)
+Lemma replay_fold : forall l c, Forall (fun s => wf_ser s = true) l ->
+  let c' := fold_left replay_ser l c in
+  c_series c' = c_series c + zlen l /\ c_stale c' = c_stale c + sumf f_stale l /\
+  c_hist c' = c_hist c + sumf f_hist l /\ c_buckets c' = c_buckets c + sumf f_nb l /\
+  c_chunks c' = c_chunks c + sumf ser_chunks l /\ c_active c' = c_active c.
+Proof.
+  induction l as [|s t IH]; intros c Hwf; simpl.
+  - rewrite zlen_nil. repeat split; lia.
+  - inversion Hwf as [|? ? Hs Ht]; subst.
+    destruct (IH (replay_ser c s) Ht) as (A & B & C & D & E & F). cbv zeta in *.
+    rewrite A, B, C, D, E, F. clear A B C D E F IH.
+    unfold wf_ser in Hs. apply andb_true_iff in Hs. destruct Hs as [Hsn _]. apply Z.eqb_eq in Hsn.
+    rewrite zlen_cons. unfold replay_ser, f_stale, f_hist, f_nb, upd_stale, upd_hist.
+    destruct (s_last s) as [b | b n]; destruct b; simpl;
+      repeat match goal with |- context [?a =? ?b] => destruct (Z.eqb_spec a b) end;
+      simpl; repeat split; lia.
+Qed.
+
+Lemma wf_sers_ok : forall l, forallb wf_ser l = true -> Forall (fun s => wf_ser s = true) l /\ Forall ok l.
+Proof.
+  intros l H. rewrite forallb_forall in H. split; apply Forall_forall; intros s Hs; specialize (H s Hs); [assumption|].
+  unfold wf_ser in H. apply andb_true_iff in H. unfold ok. tauto.
+Qed.
+
+(* ------------------------------------------------------------------ one step *)
+Lemma new_ser_ok : forall r, ok (new_ser r).
+Proof. intros. reflexivity. Qed.
+
+Theorem step_inv : forall cap st o, wf_op st o = true -> Inv st -> Inv (step cap st o).
+Proof.
+  intros cap st o Hwf HI. destruct o as [a | a created okr | a touched l | a touched | | ran mint flush ooorm | so refs maxt | | post extra]; simpl in *.
+  - (* OOpen *) destruct HI. constructor; simpl; auto. rewrite zlen_cons. lia.
+  - (* OAppend *)
+    assert (H1 : Inv (match created with
+                      | None => st
+                      | Some r => match find_ser r (st_series st) with
+                                  | Some _ => st
+                                  | None => mkSt (st_series st ++ [new_ser r]) (st_orph st) (st_open st) (add_series 1 (st_c st))
+                                  end
+                      end)).
+    { destruct created as [r|]; [|assumption]. destruct (find_ser r (st_series st)); [assumption|].
+      destruct HI. constructor; simpl; rewrite ?zlen_app, ?sumf_app; simpl; auto;
+        try (change (zlen [new_ser r]) with 1; lia);
+        try (change (f_stale (new_ser r)) with 0; lia); try (change (f_hist (new_ser r)) with 0; lia);
+        try (change (f_nb (new_ser r)) with 0; lia); try (change (ser_chunks (new_ser r)) with 0; lia).
+      apply Forall_app; split; [assumption | constructor; [apply new_ser_ok | constructor]]. }
+    destruct okr as [r|]; [|assumption].
+    set (st1 := match created with None => st | Some r0 => _ end) in *.
+    destruct H1. constructor; simpl; rewrite ?upd_len, ?upd_sum_same by reflexivity; auto.
+    apply upd_forall; [intros s Hs; exact Hs | assumption].
+  - (* OCommit *)
+    destruct (mem a (st_open st)) eqn:EM; [|assumption].
+    destruct (commit_fold_inv cap l st Hwf HI) as [HI' Ho].
+    destruct HI'. constructor; simpl;
+      rewrite ?clear_pend_len, ?(clear_pend_sum f_stale pend_stale), ?(clear_pend_sum f_hist pend_hist),
+              ?(clear_pend_sum f_nb pend_nb), ?(clear_pend_sum ser_chunks pend_chunks); auto.
+    + rewrite Ho, remove1_len by assumption. rewrite Ho in i_active0. lia.
+    + apply clear_pend_ok. assumption.
+  - (* ORollback *)
+    destruct (mem a (st_open st)) eqn:EM; [|assumption].
+    destruct HI. constructor; simpl;
+      rewrite ?clear_pend_len, ?(clear_pend_sum f_stale pend_stale), ?(clear_pend_sum f_hist pend_hist),
+              ?(clear_pend_sum f_nb pend_nb), ?(clear_pend_sum ser_chunks pend_chunks); auto.
+    + rewrite remove1_len by assumption. lia.
+    + apply clear_pend_ok. assumption.
+  - (* OMmap *)
+    destruct HI. constructor; simpl; auto.
+    + unfold zlen. rewrite map_length. assumption.
+    + rewrite sumf_ext; [assumption | intros s; unfold f_stale; destruct (mmap1_other s) as [-> _]; reflexivity].
+    + rewrite sumf_ext; [assumption | intros s; unfold f_hist; destruct (mmap1_other s) as [-> _]; reflexivity].
+    + rewrite sumf_ext; [assumption | intros s; unfold f_nb; destruct (mmap1_other s) as [-> _]; reflexivity].
+    + rewrite sumf_ext; [assumption | apply mmap1_chunks].
+    + rewrite Forall_forall in *. intros s Hs. apply in_map_iff in Hs. destruct Hs as [s0 [<- Hs0]].
+      unfold ok. destruct (mmap1_other s0) as [_ ->]. apply i_ok0. assumption.
+  - (* OTrunc *)
+    destruct HI.
+    destruct (flush_list_inv flush (st_series st) Hwf i_ok0) as (A & B & C & D & E & F).
+    destruct ran.
+    + destruct (gc_list mint ooorm (flush_list flush (st_series st))) as [[l2 d] [[[[rm del] sst] hi] bu]] eqn:EG.
+      destruct (gc_list_inv _ _ _ _ _ _ _ _ _ _ F EG) as (A' & B' & C' & D' & E' & F').
+      constructor; simpl; auto; lia.
+    + constructor; simpl; auto; lia.
+  - (* OEvict *)
+    destruct HI.
+    destruct (evict_list so refs maxt (st_series st)) as [[l2 d] [[[[rm del] sst] hi] bu]] eqn:EG.
+    destruct (evict_list_inv _ _ _ _ _ _ _ _ _ _ _ i_ok0 EG) as (A' & B' & C' & D' & E' & F').
+    constructor; simpl; auto; lia.
+  - (* ONop *) assumption.
+  - (* ORestart *)
+    apply andb_true_iff in Hwf. destruct Hwf as [Hp He]. apply Z.eqb_eq in He. subst extra.
+    destruct (wf_sers_ok _ Hp) as [Hw Hok].
+    destruct (replay_fold post ctrs0 Hw) as (A & B & C & D & E & F). cbv zeta in *.
+    change (c_series ctrs0) with 0 in A. change (c_stale ctrs0) with 0 in B. change (c_hist ctrs0) with 0 in C.
+    change (c_buckets ctrs0) with 0 in D. change (c_chunks ctrs0) with 0 in E. change (c_active ctrs0) with 0 in F.
+    constructor; simpl; auto; rewrite ?zlen_nil; try lia.
+Qed.
+
+(* ------------------------------------------------------------------ all histories *)
+Theorem run_inv : forall cap ops st, wf_run cap st ops = true -> Inv st -> Inv (fold_left (step cap) ops st).
+Proof.
+  induction ops as [|o r IH]; simpl; intros st Hwf HI; [assumption|].
+  apply andb_true_iff in Hwf. destruct Hwf as [Ho Hr].
+  apply IH; [assumption | apply step_inv; assumption].
+Qed.
+
+(* every state along the history *)
+Theorem trace_inv : forall cap ops st, wf_run cap st ops = true -> Inv st -> Forall Inv (trace cap st ops).
+Proof.
+  induction ops as [|o r IH]; simpl; intros st Hwf HI; [constructor|].
+  apply andb_true_iff in Hwf. destruct Hwf as [Ho Hr].
+  pose proof (step_inv cap st o Ho HI) as H1. constructor; [assumption | apply IH; assumption].
+Qed.
+
+(* the active-appender gauge needs no assumption on the oracles *)
+Lemma commit1_open : forall cap st x, st_open (commit1 cap st x) = st_open st /\ c_active (st_c (commit1 cap st x)) = c_active (st_c st).
+Proof.
+  intros. unfold commit1.
+  assert (H : forall s s' c, commit_ser cap (st_c st) s x = (s', c) -> c_active c = c_active (st_c st)).
+  { intros s s' c H. destruct x; simpl in H.
+    - inversion H; subst. unfold upd_stale, upd_hist.
+      repeat match goal with |- context [if ?b then _ else _] => destruct b end; reflexivity.
+    - destruct (match s_ohead s with Some n => n =? cap | None => true end); inversion H; reflexivity. }
+  destruct (find_ser (landed_ref x) (st_series st)) as [s|].
+  - destruct (commit_ser cap (st_c st) s x) as [s' c] eqn:E. simpl. split; [reflexivity | eapply H; eassumption].
+  - destruct (find_ser (landed_ref x) (st_orph st)) as [s|]; [|auto].
+    destruct (commit_ser cap (st_c st) s x) as [s' c] eqn:E. simpl. split; [reflexivity | eapply H; eassumption].
+Qed.
+
+Lemma commit_fold_open : forall cap l st,
+  st_open (fold_left (commit1 cap) l st) = st_open st /\ c_active (st_c (fold_left (commit1 cap) l st)) = c_active (st_c st).
+Proof.
+  induction l as [|x l IH]; simpl; intros st; [auto|].
+  destruct (IH (commit1 cap st x)) as [A B]. destruct (commit1_open cap st x) as [C D]. split; congruence.
+Qed.
+
+Lemma sub_removed_active : forall c x, c_active (sub_removed c x) = c_active c.
+Proof. intros c [[[[rm del] st] hi] bu]. reflexivity. Qed.
+
+Lemma replay_active : forall l c, c_active (fold_left replay_ser l c) = c_active c.
+Proof.
+  induction l as [|s t IH]; simpl; intros c; [reflexivity|]. rewrite IH.
+  unfold replay_ser, upd_stale, upd_hist.
+  repeat match goal with |- context [if ?b then _ else _] => destruct b end; reflexivity.
+Qed.
+
+Theorem step_active : forall cap st o,
+  c_active (st_c st) = zlen (st_open st) -> c_active (st_c (step cap st o)) = zlen (st_open (step cap st o)).
+Proof.
+  intros cap st o H. destruct o as [a | a created okr | a touched l | a touched | | ran mint flush ooorm | so refs maxt | | post extra]; simpl.
+  - rewrite zlen_cons. lia.
+  - destruct created as [r|]; [destruct (find_ser r (st_series st))|]; destruct okr; simpl; assumption.
+  - destruct (mem a (st_open st)) eqn:EM; [|assumption]. simpl.
+    destruct (commit_fold_open cap l st) as [A B]. rewrite A, B, remove1_len by assumption. lia.
+  - destruct (mem a (st_open st)) eqn:EM; [|assumption]. simpl. rewrite remove1_len by assumption. lia.
+  - assumption.
+  - destruct ran; [|assumption].
+    destruct (gc_list mint ooorm (flush_list flush (st_series st))) as [[l2 d] x]. simpl. rewrite sub_removed_active. assumption.
+  - destruct (evict_list so refs maxt (st_series st)) as [[l2 d] x]. simpl. rewrite sub_removed_active. assumption.
+  - assumption.
+  - rewrite replay_active. reflexivity.
+Qed.
+
+Theorem run_active : forall cap ops st,
+  c_active (st_c st) = zlen (st_open st) ->
+  c_active (st_c (fold_left (step cap) ops st)) = zlen (st_open (fold_left (step cap) ops st)).
+Proof. induction ops as [|o r IH]; simpl; intros st H; [assumption | apply IH, step_active; assumption]. Qed.
